@@ -33,10 +33,12 @@ FieldMism(c, e, r, b) ==
   LET ipoff == LinkLen(c) + VlanLen(c)
       trlen == TrLen(c)
       l4off == ipoff + NetLen(c) + ExtLen(c) IN
-  (IF c.link = "eth" /\ LayerOf(r, "eth").f # DST_MAC \o SRC_MAC \o <<IF c.vlan = 2 THEN 34984 ELSE IF c.vlan # 0 THEN 33024 ELSE NetEt(c)>> THEN {"eth.fields"} ELSE {})
+  (IF c.link = "eth" /\ LayerOf(r, "eth").f # DST_MAC \o SRC_MAC \o <<IF c.vlan \in {2, 4} THEN 34984 ELSE IF c.vlan # 0 THEN 33024 ELSE NetEt(c)>> THEN {"eth.fields"} ELSE {})
   \cup (IF c.link = "sll" /\ (LayerOf(r, "sll").f[1] # 3 \/ LayerOf(r, "sll").f[2] # 1 \/ LayerOf(r, "sll").f[3] # 6 \/ LayerOf(r, "sll").f[12] # NetEt(c)) THEN {"sll.fields"} ELSE {})
   \cup (IF c.vlan \in {1, 3} /\ LayerOf(r, "vlan").f # (IF c.vlan = 1 THEN <<0, 0, VID_INNER, NetEt(c)>> ELSE <<5, 1, VID_INNER, NetEt(c)>>) THEN {"vlan.fields"} ELSE {})
   \cup (IF c.vlan = 2 /\ (r.layers[2].f # <<0, 0, VID_OUTER, 33024>> \/ r.layers[3].f # <<0, 0, VID_INNER, NetEt(c)>>) THEN {"vlan.double.fields"} ELSE {})
+  \* caller supplied double VLAN header: pcp / dei / id kept, both ether types filled in by the builder
+  \cup (IF c.vlan = 4 /\ (r.layers[2].f # <<3, 0, VID_OUTER, 33024>> \/ r.layers[3].f # <<5, 1, VID_INNER, NetEt(c)>>) THEN {"vlan.double.fields"} ELSE {})
   \cup (IF IsV4(c) THEN
           LET f == LayerOf(r, "ipv4").f  hl == 20 + c.opts IN
           (IF f[3] # Len(b) - ipoff THEN {"ipv4.total_len"} ELSE {})
